@@ -378,16 +378,20 @@ impl Drop for ThreadName {
     }
 }
 
-/// The "STDIN n" line of every record of simchild's log.
-pub fn parse_child_stdin(data: &[u8]) -> Vec<usize> {
-    data.split(|b| *b == b'\n')
-        .filter_map(|l| l.strip_prefix(b"STDIN "))
-        .filter_map(|n| std::str::from_utf8(n).ok()?.parse().ok())
-        .collect()
+/// One record of simchild's log.
+#[derive(Clone, Debug, Default)]
+pub struct ChildRec {
+    pub args: Vec<Vec<u8>>,
+    /// what getcwd() gave (empty when it failed: a path beyond PATH_MAX)
+    pub cwd: Vec<u8>,
+    /// bytes the child could still read from its standard input
+    pub stdin: Option<usize>,
+    /// device and inode of the child's working directory
+    pub dir: Option<(u64, u64)>,
 }
 
-/// Parse simchild's log: records of (args, cwd).
-pub fn parse_child_log(data: &[u8]) -> Vec<(Vec<Vec<u8>>, Vec<u8>)> {
+/// Parse simchild's log (arguments are length-prefixed, so their content cannot confuse it).
+pub fn parse_child_records(data: &[u8]) -> Vec<ChildRec> {
     let mut out = vec![];
     let mut p = 0usize;
     let read_line = |p: &mut usize| -> Option<Vec<u8>> {
@@ -425,10 +429,10 @@ pub fn parse_child_log(data: &[u8]) -> Vec<(Vec<Vec<u8>>, Vec<u8>)> {
         else {
             break;
         };
-        let mut args = vec![];
+        let mut rec = ChildRec::default();
         for _ in 0..argc {
             match read_sized(&mut p) {
-                Some(a) => args.push(a),
+                Some(a) => rec.args.push(a),
                 None => return out,
             }
         }
@@ -437,15 +441,36 @@ pub fn parse_child_log(data: &[u8]) -> Vec<(Vec<Vec<u8>>, Vec<u8>)> {
         }
         p += 4;
         let Some(cwd) = read_sized(&mut p) else { break };
-        // optional "STDIN n", then END
-        if let Some(l) = read_line(&mut p) {
-            if l.starts_with(b"STDIN ") {
-                let _ = read_line(&mut p);
+        rec.cwd = cwd;
+        // "DIR dev:ino", "STDIN n", then END
+        while let Some(l) = read_line(&mut p) {
+            if l == b"END" {
+                break;
+            }
+            let text = String::from_utf8_lossy(&l).into_owned();
+            if let Some(n) = text.strip_prefix("STDIN ") {
+                rec.stdin = n.parse().ok();
+            } else if let Some(d) = text.strip_prefix("DIR ") {
+                if let Some((a, b)) = d.split_once(':') {
+                    if let (Ok(a), Ok(b)) = (a.parse(), b.parse()) {
+                        rec.dir = Some((a, b));
+                    }
+                }
             }
         }
-        out.push((args, cwd));
+        out.push(rec);
     }
     out
+}
+
+/// The "STDIN n" line of every record of simchild's log.
+pub fn parse_child_stdin(data: &[u8]) -> Vec<usize> {
+    parse_child_records(data).into_iter().filter_map(|r| r.stdin).collect()
+}
+
+/// Parse simchild's log: records of (args, cwd).
+pub fn parse_child_log(data: &[u8]) -> Vec<(Vec<Vec<u8>>, Vec<u8>)> {
+    parse_child_records(data).into_iter().map(|r| (r.args, r.cwd)).collect()
 }
 
 // ---------------------------------------------------------------------------
